@@ -68,3 +68,16 @@ def run_wal(ctx, args, label):
     ctx.extra["events"] += summ["events"]
     vcore.validate_all(ctx, "WALQueueTrace", "WALQueueTrace.cfg", tr, describe=describe, dfs=False)
     return tr
+
+
+def run_generated(ctx, cfg, num, depth, unit, label, maximages=0, seed_shift=0):
+    """Leg R: API-call histories chosen by TLC from the store-level model (WALQueueGen) are executed against the real
+    queue (every store observed, the directory imaged after every store and recovered by the real code), validated
+    like every other trace."""
+    gen = ctx.generate_behaviours("WALQueueGen", cfg, num, depth, seed_shift=seed_shift)
+    gpath = os.path.join(ctx.scratch, "wal-gen-%s.json" % label)
+    with open(gpath, "w") as f:
+        json.dump(gen, f)
+    ctx.extra["generated_behaviours_replayed"] = ctx.extra.get("generated_behaviours_replayed", 0) + len(gen)
+    return run_wal(ctx, ["--histories", 0, "--scripts", gpath, "--unit", unit, "--maximages", maximages, "--grouptail"],
+                   "gen-" + label)
